@@ -124,8 +124,11 @@ def _prune_cache(keep):
     except OSError:
         return
     ents.sort(key=lambda e: os.path.getmtime(os.path.join(CACHE, e)), reverse=True)
-    for e in ents[12:]:
-        if e != keep:
+    # never remove a cache directory that a running check may still be using:
+    # only entries beyond the 40 newest AND older than 12 hours go
+    now = time.time()
+    for e in ents[40:]:
+        if e != keep and now - os.path.getmtime(os.path.join(CACHE, e)) > 12 * 3600:
             shutil.rmtree(os.path.join(CACHE, e), ignore_errors=True)
 
 
